@@ -122,86 +122,86 @@ def run(ctx, chk):
     _ = chain_ok
 
 
+def contains(v, needle):
+    return any(x == needle for x in psi.walk(v))
+
+
+def follow(fb, body, args, taint, trail, seen, depth=0):
+    """follow the value `taint` from `body` (called with `args`) through workspace calls, helper functions
+    and closures handed to std (thread::spawn) until a function returns a struct holding it unchanged in
+    a field; returns (constructor body, field name, trail) or None"""
+    if depth > 8 or body.path in seen:
+        return None
+    seen = seen | {body.path}
+    eng = common.mk_engine(fb, no_inline=lambda x: True)
+    try:
+        paths = eng.run(body, args=args)
+    except psi.PathLimit:
+        return None
+    nexts = []
+    for p in paths:
+        if p.kind == 'return' and p.value is not None and p.value[0] == 'agg' and any(f == taint for f in p.value[3]):
+            adt = eng.find_adt(p.value[1]) or {}
+            names = [f['name'] for f in adt.get('variants', [{}])[0].get('fields', [])]
+            for nm, f in zip(names, p.value[3]):
+                if f == taint:
+                    return body, nm, trail + [body.path]
+        for ef in p.effects:
+            if ef['kind'] != 'call' or ef.get('tracing'):
+                continue
+            hit = [i for i, a in enumerate(ef['args']) if contains(a, taint)]
+            if not hit:
+                continue
+            nb = fb.body(ef['callee'])
+            if nb is not None:
+                nexts.append((nb, list(ef['args'])))
+            else:
+                # a closure handed to an external function (thread::spawn, Builder::spawn, ..): it will be called
+                for a in ef['args']:
+                    if a[0] == 'agg' and isinstance(a[1], str) and a[1].startswith('closure:') and contains(a, taint):
+                        cb = fb.body(a[1][len('closure:'):])
+                        if cb is not None:
+                            env = a
+                            if cb.local_ty(1).get('k') == 'ref':
+                                env = ('ref', (('K0', id(a)), ()))
+                            nexts.append((cb, [a]))
+    done = set()
+    for nb, a in nexts:
+        key = (nb.path, tuple(a))
+        if key in done:
+            continue
+        done.add(key)
+        r = follow(fb, nb, a, taint, trail + [body.path], seen, depth + 1)
+        if r is not None:
+            return r
+    return None
+
+
 def flow_chain(fb, chk):
-    ok_all = True
-    # thread_manager::run(max_drift_ppb, ..): the spawn closure that captures it
     tm = [b for b in fb.bodies(common.DAEMON) if b.path.endswith('thread_manager::run')]
     if not tm:
         chk.missing('C19.R4', 'thread_manager::run')
         return False
     tmb = tm[0]
     chk.saw(tmb)
-    param = ('sym', tmb.debug_names.get(1, 'arg1'))
-    eng = common.mk_engine(fb, no_inline=lambda x: True)
-    clos = None
-    for p in eng.run(tmb):
-        for ef in p.effects:
-            if ef['kind'] == 'call' and ef['callee'].endswith('thread::spawn'):
-                c = ef['args'][0]
-                if c[0] == 'agg' and c[1].startswith('closure:') and any(f == param for f in c[3]):
-                    clos = c
-        if clos:
-            break
-    chk.ob('C19.R4', 'flow:run->spawn-closure', clos is not None, tmb.where(0),
-           'thread_manager::run moves its drift parameter into a spawned closure: %s' % (clos[1] if clos else None))
-    if clos is None:
+    taint = ('sym', tmb.debug_names.get(1, 'arg1'))
+    args = [taint] + [None] * (tmb.argc - 1)
+    r = follow(fb, tmb, args, taint, [], frozenset())
+    chk.ob('C19.R4', 'flow:manager->updater-constructor', r is not None, tmb.where(0),
+           'the drift value passed to thread_manager::run reaches a constructor unchanged via %s' % (' -> '.join(x.split('::')[-1] for x in r[2]) if r else 'NO PATH FOUND'))
+    if r is None:
         return False
-    cb = fb.body(clos[1][len('closure:'):])
-    if cb is None:
-        chk.missing('C19.R4', 'closure body %s' % clos[1])
-        return False
-    chk.saw(cb)
-    eng = common.mk_engine(fb, no_inline=lambda x: True)
-    nxt = None
-    for p in eng.run(cb, args=[clos]):
-        for ef in p.effects:
-            if ef['kind'] == 'call' and not ef['tracing']:
-                for n, a in enumerate(ef['args']):
-                    if a == param:
-                        nxt = (ef['callee'], n)
-    chk.ob('C19.R4', 'flow:closure->writer-entry', nxt is not None, cb.where(0),
-           'the closure passes the value unchanged to %s' % (nxt,))
-    if nxt is None:
-        return False
-    hops = 0
-    while nxt is not None and hops < 6:
-        hops += 1
-        callee, argn = nxt
-        nb = fb.body(callee)
-        if nb is None:
-            break
-        chk.saw(nb)
-        pnm = ('sym', nb.debug_names.get(argn + 1, 'arg%d' % (argn + 1)))
-        eng = common.mk_engine(fb, no_inline=lambda x: True)
-        nxt2 = None
-        ctor_field = None
-        for p in eng.run(nb):
-            for ef in p.effects:
-                if ef['kind'] == 'call' and not ef['tracing']:
-                    for n, a in enumerate(ef['args']):
-                        if a == pnm:
-                            nxt2 = (ef['callee'], n)
-            if p.kind == 'return' and p.value[0] == 'agg' and any(f == pnm for f in p.value[3]):
-                adt = eng.find_adt(p.value[1]) or {}
-                names = [f['name'] for f in adt.get('variants', [{}])[0].get('fields', [])]
-                for nm, f in zip(names, p.value[3]):
-                    if f == pnm:
-                        ctor_field = nm
-        if ctor_field:
-            chk.ob('C19.R4', 'flow:constructor-field', True, nb.where(0),
-                   '%s stores the value unchanged in field `%s`' % (nb.path.split('::')[-1], ctor_field))
-            # the record field comes from that updater field on every path: C08.C, re-evaluated here
-            from .updater_model import UpdaterModel
-            m = UpdaterModel(fb, chk, 'C19.R4')
-            if m.ok:
-                same = m.field_of.get(3) == ctor_field
-                never = all(ctor_field not in i['stores'] for i in m.infos)
-                chk.ob('C19.R4', 'flow:field->record', same and never, m.dispatch.where(0),
-                       'record.max_drift_ppb <- updater.%s on every publication; assigned after construction: %s' %
-                       (m.field_of.get(3), not never))
-            return True
-        chk.ob('C19.R4', 'flow:%s' % callee.split('::')[-2], nxt2 is not None, nb.where(0),
-               '%s passes the value unchanged to %s' % (callee.split('::')[-1], nxt2))
-        nxt = nxt2
-    chk.ob('C19.R4', 'flow:reaches-constructor', False, '', 'drift value does not reach the updater constructor unchanged')
-    return False
+    ctor, ctor_field, trail = r
+    for path in trail:
+        b = fb.body(path)
+        if b is not None:
+            chk.saw(b)
+    chk.ob('C19.R4', 'flow:constructor-field', True, ctor.where(0), '%s stores the value unchanged in field `%s`' % (ctor.path.split('::')[-1], ctor_field))
+    from .updater_model import UpdaterModel
+    m = UpdaterModel(fb, chk, 'C19.R4')
+    if m.ok:
+        same = m.field_of.get(3) == ctor_field
+        never = all(ctor_field not in i['stores'] for i in m.infos)
+        chk.ob('C19.R4', 'flow:field->record', same and never, m.dispatch.where(0),
+               'record.max_drift_ppb <- updater.%s on every publication; assigned after construction: %s' % (m.field_of.get(3), not never))
+    return True
